@@ -1035,7 +1035,7 @@ def new_case(rng, allow=None, nops=None, bs=None, avoid=False):
             "nops": nops if nops is not None else rng.choice([1, 2, 3, 3, 4, 5, 6])}
 
 
-def run_history(case, rng=None, trace=None):
+def run_history(case, rng=None, trace=None, probe=None):
     """execute (and, when [rng] is given and the case has no ops yet, generate) a history.
     Returns failures: list of dict(label, detail, sig, step).  [trace] collects (step, op, rep_before, rep_after, info)."""
     import random
@@ -1103,6 +1103,11 @@ def run_history(case, rng=None, trace=None):
             bad = check_state(st, prng)
             if op[0] == "to_dict":
                 bad += check_to_dict(st)
+            if op[0] == "setitem_same" and cont == "TensorDict" and rb[0] == "ok" and not st.region:
+                ra2 = call(lambda: rep(st.td.get("s"), st.pl))
+                if ra2[0] == "ok" and ra2[1] != rb[1]:
+                    # all positions still agree with what was there: the representation (shared object / stack) must not change
+                    bad.append(("representation-changed-by-equal-write", {"before": rb[1], "after": ra2[1]}))
             for lab, det in bad:
                 fails.append({"label": f"{op[0]}:{lab}", "detail": det, "sig": signature(lab, op, kind_before, cont, None, st), "step": i - 1})
             if any(lab in FATAL for lab, _ in bad):
@@ -1111,6 +1116,14 @@ def run_history(case, rng=None, trace=None):
                 if gen:
                     case["nops"] = i
                 break   # a loaded tensordict carries device / lock metadata that is C10's business: the history ends here
+        if probe is not None and not any(f["label"].split(":")[1] in FATAL or "raises" in f["label"] for f in fails):
+            import random as _r
+            pf = call(lambda: probe_entry(st, _r.Random(case["pseed"] + 3), probe))
+            if pf[0] == "ok":
+                for lab, det in pf[1]:
+                    fails.append({"label": lab, "detail": det, "sig": {"check": lab.split(":")[1], "op": lab.split(":")[0], "probe": True,
+                                                                    "partly_expanded_stack": bool(det.get("entry") and det["entry"][0] == "K" and not fully_expanded(det["entry"]))},
+                                  "step": len(case["ops"]) - 1})
     finally:
         st.cleanup()
     if gen:
@@ -1182,6 +1195,81 @@ def shrink(case, label, budget=60):
     return best
 
 
+# ------------------------------------------------------------------ entry-level probes (from_nontensordata, utils._set_item)
+def gen_basic_idx(rng, bs):
+    """ints / slices / one 1-d integer index without repeats, no None: a writable index for _set_item"""
+    descs, adv = [], False
+    for b in bs[: rng.randrange(1, len(bs) + 1)]:
+        k = rng.choice(["int", "sl", "sl", "list"] if not adv else ["int", "sl", "sl"])
+        if k == "int":
+            descs.append(["int", rng.randrange(-b, b)])
+        elif k == "sl":
+            descs.append(["sl", rng.choice([None, 0, 1]), rng.choice([None, b, -1]), rng.choice([None, 1, 2])])
+        else:
+            m = rng.randrange(1, b + 1)
+            descs.append(["list", rng.sample(range(b), m)])
+            adv = True
+    return descs
+
+
+def probe_entry(st, rng, trace_out):
+    """direct calls of the two promotion helpers on the current entry; returns failures (label, detail) and appends
+    (label, protocol line, expected rep) for the model"""
+    from tensordict.utils import _set_item
+    fails = []
+    td, pos, pl = st.td, st.pos, st.pl
+    if type(td).__name__ != "TensorDict" or pos.numel() == 0 or pos.dim() == 0 or st.region:
+        return fails
+    e = call(lambda: td.get("s"))
+    if e[0] != "ok":
+        return fails
+    e = e[1]
+    r0 = rep(e, pl)
+    if not rep_ok(r0):
+        return fails
+    shape = list(pos.shape)
+    want = [pl.canon[c] for c in expected_flat(st)]
+    if isinstance(e, NonTensorData):
+        y = call(lambda: NonTensorStack.from_nontensordata(e))
+        if y[0] != "ok":
+            fails.append(("from_nontensordata:raises", {"exception": y[1], "entry": r0}))
+        else:
+            tl = call(lambda: flatten_to(y[1].tolist(), shape))
+            got = [json.dumps(canon(o)) for o in tl[1]] if tl[0] == "ok" and tl[1] is not None else None
+            if list(y[1].batch_size) != shape or got != want:
+                fails.append(("from_nontensordata:content", {"entry": r0, "batch_size": list(y[1].batch_size), "got": got and got[:12]}))
+            trace_out.append(("from_nontensordata", sx([Sym("from-ntd"), rep_sx(r0)]), rep(y[1], pl)))
+    # _set_item
+    descs = gen_basic_idx(rng, shape)
+    idx = py_index(descs, False)
+    tgt = call(lambda: pos[idx])
+    if tgt[0] != "ok" or tgt[1].numel() == 0:
+        return fails
+    tshape = list(tgt[1].shape)
+    cur_cids = expected_flat(st)
+    cid = rng.choice([cur_cids[0], rng.randrange(len(pl.pool)), rng.randrange(len(pl.pool))])
+    value = NonTensorData(pl.get(cid), batch_size=tshape)
+    dest = e if isinstance(e, NonTensorData) else call(lambda: e.clone())[1]
+    rd = rep(dest, pl)
+    if has_alias(dest):
+        return fails
+    ids2 = torch.arange(pos.numel()).reshape(shape)
+    mark = torch.zeros(shape, dtype=torch.bool)
+    mark[idx] = True
+    exp = [pl.canon[cid] if m else w for m, w in zip(mark.reshape(-1).tolist(), want)]
+    out = call(lambda: _set_item(dest, idx, value, validated=True, non_blocking=False))
+    case = {"entry": rd, "index": descs, "value": ["S", cid, tshape]}
+    if out[0] != "ok":
+        fails.append(("_set_item:raises", dict(case, exception=out[1])))
+        return fails
+    tl = call(lambda: flatten_to(out[1].tolist(), shape))
+    got = [json.dumps(canon(o)) for o in tl[1]] if tl[0] == "ok" and tl[1] is not None else None
+    if got != exp:
+        fails.append(("_set_item:content", dict(case, want=exp[:16], got=got and got[:16])))
+    trace_out.append(("_set_item", sx([Sym("set-item"), rep_sx(rd), idx_sx(descs), rep_sx(["S", cid, tshape])]), rep(out[1], pl)))
+    return fails
+
+
 # ------------------------------------------------------------------ streams
 STREAMS = {
     # name: (allowed ops or None = all, avoid recorded defect regions, number of ops choices)
@@ -1201,8 +1289,10 @@ def run_stream(name, n, seed):
     for _ in range(n):
         case = new_case(rng, allow=allow, nops=rng.choice(nopsc), avoid=avoid)
         case["stream"] = name
-        tr = []
-        fs = run_history(case, rng, trace=tr)
+        tr, pr = [], []
+        fs = run_history(case, rng, trace=tr, probe=pr)
+        if pr:
+            tr.append({"probe_lines": pr, "op": ["probe"], "status": "probe", "before": None, "step": len(case["ops"])})
         cases.append(case)
         for f in fs:
             fails.append((case, f))
@@ -1394,6 +1484,10 @@ def check_model(R, all_traces):
     seen_spec = set()
     for case, tr in all_traces:
         for t in tr:
+            if "probe_lines" in t:
+                for (label, line, want) in t["probe_lines"]:
+                    items.append((label, line, want, "rep", case, t))
+                continue
             for (label, line, want, kind) in model_lines_for(t, case):
                 items.append((label, line, want, kind, case, t))
             for it in spec_lines_for(t):
